@@ -133,15 +133,16 @@ theorem cinv_congr {c c' : Chan} (h : CInv c)
     (e1 : c'.session = c.session) (e2 : c'.trace = c.trace) (e3 : c'.openWaiter = c.openWaiter)
     (e4 : c'.reg = c.reg) (e5 : c'.stage = c.stage) (e6 : c'.sendSt = c.sendSt) (e7 : c'.recvSt = c.recvSt)
     (e8 : c'.wakeVal = c.wakeVal) (e9 : c'.reqWaiter = c.reqWaiter) (e10 : c'.sendChan = c.sendChan)
-    (e11 : c'.closeEvent = c.closeEvent) (e12 : c'.wcPending = c.wcPending) (e13 : c'.fo = c.fo) : CInv c' := by
-  obtain ⟨h1, h2, h3, h4, h5, h6, h7, h8, h9, h10, h11, h12⟩ := h
-  constructor <;> simp only [e1, e2, e3, e4, e5, e6, e7, e8, e9, e10, e11, e12, e13] <;> assumption
+    (e11 : c'.closeEvent = c.closeEvent) (e12 : c'.wcPending = c.wcPending) (e13 : c'.fo = c.fo)
+    (e14 : c'.recvEofPending = c.recvEofPending) : CInv c' := by
+  obtain ⟨h1, h2, h3, h4, h5, h6, h7, h8, h9, h10, h11, h12, h13, h14⟩ := h
+  constructor <;> simp only [e1, e2, e3, e4, e5, e6, e7, e8, e9, e10, e11, e12, e13, e14] <;> assumption
 
 theorem writeEof_plain (c : Chan) (h : CInv c) : Plain c (writeEof c) := by
   unfold writeEof
   split
   · have hi : CInv { c with sendSt := .eofPending } := by
-      obtain ⟨h1, h2, h3, h4, h5, h6, h7, h8, h9, h10, h11, h12⟩ := h
+      obtain ⟨h1, h2, h3, h4, h5, h6, h7, h8, h9, h10, h11, h12, h13, h14⟩ := h
       constructor <;> grind
     have := flushSendBuf_plain _ hi
     exact ⟨this.inv, this.reg, this.ow, this.wv, this.okv, this.sess, this.sched⟩
@@ -164,14 +165,14 @@ theorem flushEofPart_plain (c : Chan) (h : CInv c) : Plain c (flushEofPart c) :=
   split
   · split
     · have hi : CInv { c with recvSt := .eof, trace := c.trace ++ [.eof] } := by
-        obtain ⟨h1, h2, h3, h4, h5, h6, h7, h8, h9, h10, h11, h12⟩ := h
+        obtain ⟨h1, h2, h3, h4, h5, h6, h7, h8, h9, h10, h11, h12, h13, h14⟩ := h
         constructor <;> grind [dfa, runDfa_snoc]
       split
       · have := writeEof_plain _ hi
         exact ⟨this.inv, this.reg, this.ow, this.wv, this.okv, this.sess, this.sched⟩
       · exact plain_of_fields hi (by simp [R.ok]) rfl rfl rfl rfl
     · have hi : CInv { c with recvSt := .eof } := by
-        obtain ⟨h1, h2, h3, h4, h5, h6, h7, h8, h9, h10, h11, h12⟩ := h
+        obtain ⟨h1, h2, h3, h4, h5, h6, h7, h8, h9, h10, h11, h12, h13, h14⟩ := h
         constructor <;> grind
       exact plain_of_fields (r := R.fail _ _) hi (by simp [R.fail]) rfl rfl rfl rfl
   · exact plain_refl c h
@@ -184,7 +185,7 @@ theorem flushRecvBuf_plain (c : Chan) (h : CInv c) : Plain c (flushRecvBuf c) :=
   unfold flushRecvBuf
   refine plain_andThen (plain_andThen ?_ flushEofPart_plain) flushClosePart_plain
   split
-  · have hi : CInv { c with recvBuf := 0 } := cinv_congr h rfl rfl rfl rfl rfl rfl rfl rfl rfl rfl rfl rfl rfl
+  · have hi : CInv { c with recvBuf := 0 } := cinv_congr h rfl rfl rfl rfl rfl rfl rfl rfl rfl rfl rfl rfl rfl rfl
     have := deliverN_plain c.recvBuf _ hi
     exact ⟨this.inv, this.reg, this.ow, this.wv, this.okv, this.sess, this.sched⟩
   · exact plain_refl c h
@@ -194,7 +195,7 @@ theorem acceptData_plain (c : Chan) (h : CInv c) : Plain c (acceptData c) := by
   split
   · exact plain_refl c h
   · split
-    · exact plain_of_fields (r := R.ok _) (cinv_congr h rfl rfl rfl rfl rfl rfl rfl rfl rfl rfl rfl rfl rfl)
+    · exact plain_of_fields (r := R.ok _) (cinv_congr h rfl rfl rfl rfl rfl rfl rfl rfl rfl rfl rfl rfl rfl rfl)
         (by simp [R.ok]) rfl rfl rfl rfl
     · exact deliverOne_plain c h
 
@@ -202,19 +203,19 @@ theorem resumeReading_plain (c : Chan) (h : CInv c) : Plain c (resumeReading c) 
   unfold resumeReading
   split
   · have := flushRecvBuf_plain { c with paused := .no }
-      (cinv_congr h rfl rfl rfl rfl rfl rfl rfl rfl rfl rfl rfl rfl rfl)
+      (cinv_congr h rfl rfl rfl rfl rfl rfl rfl rfl rfl rfl rfl rfl rfl rfl)
     exact ⟨this.inv, this.reg, this.ow, this.wv, this.okv, this.sess, this.sched⟩
   · exact plain_refl c h
 
 theorem pauseReading_plain (c : Chan) (h : CInv c) : Plain c (pauseReading c) :=
-  plain_of_fields (r := R.ok _) (cinv_congr h rfl rfl rfl rfl rfl rfl rfl rfl rfl rfl rfl rfl rfl)
+  plain_of_fields (r := R.ok _) (cinv_congr h rfl rfl rfl rfl rfl rfl rfl rfl rfl rfl rfl rfl rfl rfl)
     (by simp [R.ok]) rfl rfl rfl rfl
 
 theorem startReading_plain (c : Chan) (h : CInv c) : Plain c (startReading c) := by
   unfold startReading
   split
   · have := flushRecvBuf_plain { c with paused := .no }
-      (cinv_congr h rfl rfl rfl rfl rfl rfl rfl rfl rfl rfl rfl rfl rfl)
+      (cinv_congr h rfl rfl rfl rfl rfl rfl rfl rfl rfl rfl rfl rfl rfl rfl)
     exact ⟨this.inv, this.reg, this.ow, this.wv, this.okv, this.sess, this.sched⟩
   · exact plain_refl c h
 
@@ -231,7 +232,7 @@ theorem processEof_plain (c : Chan) (h : CInv c) : Plain c (processEof c) := by
   split
   · exact plain_fail c h _
   · have hi : CInv { c with recvSt := .eofPending } := by
-      obtain ⟨h1, h2, h3, h4, h5, h6, h7, h8, h9, h10, h11, h12⟩ := h
+      obtain ⟨h1, h2, h3, h4, h5, h6, h7, h8, h9, h10, h11, h12, h13, h14⟩ := h
       constructor <;> grind
     have := flushRecvBuf_plain _ hi
     exact ⟨this.inv, this.reg, this.ow, this.wv, this.okv, this.sess, this.sched⟩
@@ -249,8 +250,8 @@ theorem processClose_plain (c : Chan) (h : CInv c) : Plain c (processClose c) :=
   · rename_i hl
     refine plain_andThen2 (fun x => x.recvSt = c.recvSt) (closeSend_plain c h) (closeSend_recvSt c) ?_
     intro c' hc' hq
-    have hi : CInv { c' with recvSt := .closePending } := by
-      obtain ⟨h1, h2, h3, h4, h5, h6, h7, h8, h9, h10, h11, h12⟩ := hc'
+    have hi : CInv { c' with recvEofPending := decide (c'.recvSt = .eofPending), recvSt := .closePending } := by
+      obtain ⟨h1, h2, h3, h4, h5, h6, h7, h8, h9, h10, h11, h12, h13, h14⟩ := hc'
       simp only [recvLive] at hl
       constructor <;> grind
     exact (flushRecvBuf_plain _ hi).cast rfl rfl rfl rfl
@@ -260,7 +261,7 @@ theorem processAdjust_plain (n : Nat) (c : Chan) (h : CInv c) : Plain c (process
   split
   · exact plain_fail c h _
   · exact (flushSendBuf_plain { c with sendWin := c.sendWin + n }
-      (cinv_congr h rfl rfl rfl rfl rfl rfl rfl rfl rfl rfl rfl rfl rfl)).cast rfl rfl rfl rfl
+      (cinv_congr h rfl rfl rfl rfl rfl rfl rfl rfl rfl rfl rfl rfl rfl rfl)).cast rfl rfl rfl rfl
 
 theorem reportResponse_plain (k : ReqKind) (w r : Bool) (c : Chan) (h : CInv c) :
     Plain c (reportResponse c k w r) := by
@@ -276,7 +277,7 @@ theorem reportResponse_plain (k : ReqKind) (w r : Bool) (c : Chan) (h : CInv c) 
     · rename_i hs
       apply plain_pre _ hsend
       have hi : CInv { c with trace := c.trace ++ [.started] } := by
-        obtain ⟨h1, h2, h3, h4, h5, h6, h7, h8, h9, h10, h11, h12⟩ := h
+        obtain ⟨h1, h2, h3, h4, h5, h6, h7, h8, h9, h10, h11, h12, h13, h14⟩ := h
         constructor <;> grind [dfa, runDfa_snoc]
       exact (resumeReading_plain _ hi).cast rfl rfl rfl rfl
     · exact plain_of_fields (r := R.fail _ _ _) h hsend rfl rfl rfl rfl
@@ -323,7 +324,7 @@ theorem write_plain (c : Chan) (h : CInv c) : Plain c (write c) := by
   split
   · exact plain_fail c h _
   · exact (flushSendBuf_plain { c with sendBuf := c.sendBuf + 1 }
-      (cinv_congr h rfl rfl rfl rfl rfl rfl rfl rfl rfl rfl rfl rfl rfl)).cast rfl rfl rfl rfl
+      (cinv_congr h rfl rfl rfl rfl rfl rfl rfl rfl rfl rfl rfl rfl rfl rfl)).cast rfl rfl rfl rfl
 
 theorem abort_plain (c : Chan) (h : CInv c) : Plain c (abort c) := by
   unfold abort
@@ -341,7 +342,7 @@ theorem close_plain (c : Chan) (h : CInv c) : Plain c (close c) := by
   refine plain_andThen ?_ ?_
   · split
     · have hi : CInv { c with sendSt := .closePending } := by
-        obtain ⟨h1, h2, h3, h4, h5, h6, h7, h8, h9, h10, h11, h12⟩ := h
+        obtain ⟨h1, h2, h3, h4, h5, h6, h7, h8, h9, h10, h11, h12, h13, h14⟩ := h
         constructor <;> grind
       exact (flushSendBuf_plain _ hi).cast rfl rfl rfl rfl
     · exact plain_refl c h
@@ -379,7 +380,7 @@ theorem createFail_plain (code : Nat) (c : Chan) (h : CInv c) (hw : c.reqWaiter 
     (hv : c.wakeVal = none) (ho : c.openWaiter = false) : Plain c (createFail c code) := by
   unfold createFail
   have hi : CInv { c with stage := .done, outcome := .openErr code } := by
-    obtain ⟨h1, h2, h3, h4, h5, h6, h7, h8, h9, h10, h11, h12⟩ := h
+    obtain ⟨h1, h2, h3, h4, h5, h6, h7, h8, h9, h10, h11, h12, h13, h14⟩ := h
     constructor <;> grind
   exact (close_plain _ hi).cast rfl rfl rfl rfl
 
@@ -397,8 +398,10 @@ structure Resumed (cs c : Chan) : Prop where
   ow' : cs.openWaiter = false
   rw : c.reqWaiter = false
   wvn : c.wakeVal = none
-  trT : c.session = true → runDfa c.trace = some 1
+  trT : c.session = true → runDfa c.trace = some 1 ∨ runDfa c.trace = some 3
   trF : c.session = false → runDfa c.trace = some 0 ∨ runDfa c.trace = some 2
+  es : runDfa c.trace = some 3 → c.recvSt ≠ .opn ∧ c.recvSt ≠ .eofPending ∧ c.recvEofPending = false
+  rep : c.recvEofPending = true → c.recvSt = .closePending ∨ c.recvSt = .closed
   st : cs.stage ≠ .done
   wvs : cs.wakeVal.isSome = true
   okreg : c.session = true → cs.session = true ∨ cs.reg = true
@@ -417,8 +420,8 @@ theorem Plain.cast' {cs c : Chan} {r : R} (h : Plain c r) (hr : Resumed cs c) : 
 
 theorem resumed_done_inv {cs c : Chan} (h : CInv cs) (hr : Resumed cs c) (o : Outcome) :
     CInv { c with stage := .done, outcome := o } := by
-  obtain ⟨h1, h2, h3, h4, h5, h6, h7, h8, h9, h10, h11, h12⟩ := h
-  obtain ⟨r1, r2, r3, r4, r5, r6, r7, r8, r9, r10, r11, r12, r13, r14, r15, r16⟩ := hr
+  obtain ⟨h1, h2, h3, h4, h5, h6, h7, h8, h9, h10, h11, h12, h13, h14⟩ := h
+  obtain ⟨r1, r2, r3, r4, r5, r6, r7, r8, r9, r10, r11, r12, r13, r14, r15, r16, r17, r18⟩ := hr
   constructor <;> grind
 
 theorem createFail_resumed (code : Nat) {cs c : Chan} (h : CInv cs) (hr : Resumed cs c) :
@@ -434,8 +437,8 @@ theorem makeReq_resumed (k : ReqKind) (st : Stage) (hst : st = .waitPty ∨ st =
     have := h.sc (by rw [← hr.sc, hn]; rfl)
     exact this
   refine ⟨?_, hr.reg, ?_, fun _ => Or.inl hr.wvs, ?_, ?_, by simp [R.ok]⟩
-  · obtain ⟨h1, h2, h3, h4, h5, h6, h7, h8, h9, h10, h11, h12⟩ := h
-    obtain ⟨r1, r2, r3, r4, r5, r6, r7, r8, r9, r10, r11, r12, r13, r14, r15, r16⟩ := hr
+  · obtain ⟨h1, h2, h3, h4, h5, h6, h7, h8, h9, h10, h11, h12, h13, h14⟩ := h
+    obtain ⟨r1, r2, r3, r4, r5, r6, r7, r8, r9, r10, r11, r12, r13, r14, r15, r16, r17, r18⟩ := hr
     constructor <;> simp only [ok_c] <;> grind
   · simp only [ok_c]; intro x; rw [hr.ow] at x; cases x
   · simp only [ok_c]; intro x; rw [hr.wvn] at x; cases x
@@ -482,10 +485,10 @@ theorem createAfterOpen_resumed {cs : Chan} (h : CInv cs) (hv : cs.wakeVal = som
   have how : cs.openWaiter = false := by
     cases ho : cs.openWaiter with
     | false => rfl
-    | true => have := (h.ow ho).2.2.2.2; rw [hv] at this; cases this
+    | true => have := (h.ow ho).2.2.2.2.1; rw [hv] at this; cases this
   apply createAfterMade_resumed h
   exact ⟨rfl, rfl, rfl, rfl, rfl, rfl, rfl, how, how, hw.2.2, rfl, fun _ => by simp [hw.1, dfa], fun x => by simp at x,
-     by rw [hst]; simp, by rw [hv]; rfl, fun _ => Or.inr hreg⟩
+     fun x => by simp [hw.1, dfa] at x, h.rep, by rw [hst]; simp, by rw [hv]; rfl, fun _ => Or.inr hreg⟩
 
 /-- the wake-up of `create()`: an ordinary step, provided a successful open finds the channel still registered -/
 theorem createWake_plain (cs : Chan) (h : CInv cs) (hreg : cs.wakeVal = some .openOk → cs.reg = true) :
@@ -498,7 +501,7 @@ theorem createWake_plain (cs : Chan) (h : CInv cs) (hreg : cs.wakeVal = some .op
     have how : cs.openWaiter = false := by
       cases ho : cs.openWaiter with
       | false => rfl
-      | true => have := (h.ow ho).2.2.2.2; rw [hv] at this; cases this
+      | true => have := (h.ow ho).2.2.2.2.1; rw [hv] at this; cases this
     have hrw : cs.reqWaiter = false := by
       cases ho : cs.reqWaiter with
       | false => rfl
@@ -508,11 +511,11 @@ theorem createWake_plain (cs : Chan) (h : CInv cs) (hreg : cs.wakeVal = some .op
       intro o
       refine ⟨?_, rfl, by simp [R.ok], fun x => by simp [R.ok] at x, fun x => by simp [R.ok] at x,
         fun x => Or.inl x, by simp [R.ok]⟩
-      obtain ⟨h1, h2, h3, h4, h5, h6, h7, h8, h9, h10, h11, h12⟩ := h
+      obtain ⟨h1, h2, h3, h4, h5, h6, h7, h8, h9, h10, h11, h12, h13, h14⟩ := h
       constructor <;> simp only [ok_c] <;> grind
     have hres : cs.stage ≠ .done → Resumed cs { cs with wakeVal := none } := by
       intro hst
-      exact ⟨rfl, rfl, rfl, rfl, rfl, rfl, rfl, how, how, hrw, rfl, h.trT, h.trF, hst, by rw [hv]; rfl, fun x => Or.inl x⟩
+      exact ⟨rfl, rfl, rfl, rfl, rfl, rfl, rfl, how, how, hrw, rfl, h.trT, h.trF, h.es, h.rep, hst, by rw [hv]; rfl, fun x => Or.inl x⟩
     have h10 := h.wvO
     have h11 := h.wvR
     rw [hv] at h10 h11
@@ -536,7 +539,7 @@ theorem createWake_plain (cs : Chan) (h : CInv cs) (hreg : cs.wakeVal = some .op
             · rename_i hs
               refine ⟨?_, rfl, by simp [R.ok, how], fun x => by simp [R.ok] at x, fun x => by simp [R.ok] at x,
                 fun x => Or.inl x, by simp [R.ok]⟩
-              obtain ⟨h1, h2, h3, h4, h5, h6, h7, h8, h9, h10, h11, h12⟩ := h
+              obtain ⟨h1, h2, h3, h4, h5, h6, h7, h8, h9, h10, h11, h12, h13, h14⟩ := h
               constructor <;> simp only [ok_c] <;> grind [dfa, runDfa_snoc]
             · exact hdone _
           · rename_i h1 h2; rcases hst with y | y <;> contradiction
@@ -558,13 +561,13 @@ theorem finishOpenGranted_plain (c : Chan) (h : CInv c) (hf : c.fo = .start ∨ 
   simp only [finishOpenGranted]
   split
   · refine ⟨?_, rfl, id, fun x => Or.inl x, id, fun x => Or.inl x, ?_⟩
-    · obtain ⟨h1, h2, h3, h4, h5, h6, h7, h8, h9, h10, h11, h12⟩ := h
+    · obtain ⟨h1, h2, h3, h4, h5, h6, h7, h8, h9, h10, h11, h12, h13, h14⟩ := h
       constructor <;> simp only [ok_c] <;> grind
     · intro e _; exact hfo.2.2.2.2.1
   · rename_i hr
     have hreg : c.reg = true := by simpa using hr
     have hi : CInv { c with fo := .finished, session := true, sendSt := .opn, recvSt := .opn, trace := c.trace ++ [.made] } := by
-      obtain ⟨h1, h2, h3, h4, h5, h6, h7, h8, h9, h10, h11, h12⟩ := h
+      obtain ⟨h1, h2, h3, h4, h5, h6, h7, h8, h9, h10, h11, h12, h13, h14⟩ := h
       constructor <;> grind [dfa, runDfa_snoc]
     split <;>
     · refine ⟨hi, rfl, id, fun x => Or.inl x, id, fun _ => Or.inr hreg, ?_⟩
@@ -575,7 +578,7 @@ theorem finishOpenDenied_plain (c : Chan) (h : CInv c) (hf : c.fo = .start ∨ c
   have hfo := h.fo hf
   simp only [finishOpenDenied]
   refine ⟨?_, rfl, id, fun x => Or.inl x, id, fun x => Or.inl x, ?_⟩
-  · obtain ⟨h1, h2, h3, h4, h5, h6, h7, h8, h9, h10, h11, h12⟩ := h
+  · obtain ⟨h1, h2, h3, h4, h5, h6, h7, h8, h9, h10, h11, h12, h13, h14⟩ := h
     constructor <;> simp only [ok_c] <;> grind
   · intro e _; exact hfo.2.2.2.2.1
 
@@ -590,7 +593,7 @@ theorem finishOpen_plain (c : Chan) (h : CInv c) : Plain c (finishOpen c) := by
       · exact finishOpenGranted_plain c h (Or.inl hs')
       · exact finishOpenDenied_plain c h (Or.inl hs')
       · refine plain_of_fields (r := R.ok _) ?_ (by simp [R.ok]) rfl rfl rfl rfl
-        obtain ⟨h1, h2, h3, h4, h5, h6, h7, h8, h9, h10, h11, h12⟩ := h
+        obtain ⟨h1, h2, h3, h4, h5, h6, h7, h8, h9, h10, h11, h12, h13, h14⟩ := h
         constructor <;> simp only [ok_c] <;> grind
     · exact finishOpenGranted_plain c h (Or.inl hs')
 
@@ -626,7 +629,7 @@ theorem processConnectionClose_closing (e : Exc) (c : Chan) (h : CInv c) :
     Closing c (processConnectionClose c e) := by
   unfold processConnectionClose
   have hi : CInv { c with sendSt := .closed } := by
-    obtain ⟨h1, h2, h3, h4, h5, h6, h7, h8, h9, h10, h11, h12⟩ := h
+    obtain ⟨h1, h2, h3, h4, h5, h6, h7, h8, h9, h10, h11, h12, h13, h14⟩ := h
     constructor <;> grind
   have h1 := closeSend_plain _ hi
   have hne : (closeSend { c with sendSt := .closed }).err = none := by simp [closeSend, R.ok]
